@@ -37,8 +37,10 @@ ConcatRes(b, tag, c) == IF b > nb THEN <<>> ELSE Results(b, tag, c[b]) \o Concat
 MinM == CHOOSE m \in {ms[b] : b \in 1..nb} : \A b \in 1..nb : m <= ms[b]
 ZipRes(tag, c) == [i \in 1..MinM |-> [b \in 1..nb |-> Tag(b, tag, <<i>> \o c[b])]]
 
-Terminated == hist # <<>> /\ hist[Len(hist)][1] \in {"c", "call"}
-StartFill == /\ kind # "src" /\ cur = 0 /\ k < MaxN /\ ~Terminated
+\* compute() and __call__() may be repeated on the same object (twice here): same meaning each time
+NTerm == Cardinality({j \in 1..Len(hist) : hist[j][1] \in {"c", "call"}})
+Terminated == NTerm >= 2
+StartFill == /\ kind # "src" /\ cur = 0 /\ k < MaxN /\ NTerm = 0
              /\ cur' = 1 /\ UNCHANGED <<kind, nb, ms, zip, k, col, hist, outs>>
 FillOne == /\ cur \in 1..nb /\ col' = [col EXCEPT ![cur] = Append(@, k)]
            /\ IF cur = nb THEN cur' = 0 /\ k' = k + 1 /\ hist' = Append(hist, <<"f", k>>)
@@ -68,7 +70,7 @@ EvenlyFilled == cur = 0 => \A a, b \in 1..nb : col[a] = col[b]
 \* the compute results are the fill/compute results of Split.run on the filled flow
 Strip(o) == [j \in 1..Len(o) |-> [o[j] EXCEPT !.p = Tail(@)]]
 SameAsRun ==
-  (kind = "fc" /\ ~zip /\ Terminated /\ \A b \in 1..nb : ms[b] = 1) =>
+  (kind = "fc" /\ ~zip /\ NTerm >= 1 /\ \A b \in 1..nb : ms[b] = 1) =>
      Strip(outs[1].s) = SplitSem([b \in 1..nb |-> FC(None)], None, Iota(k))
 \* Zip: the i-th tuple holds the i-th result of every branch; length of the shortest
 ZipTuples == \A j \in 1..Len(outs) : zip =>
@@ -80,6 +82,8 @@ CatFirst(os, b, j) == IF j > Len(os) THEN <<>>
    ELSE LET rs == Proj(os[j].s, b) IN (IF rs = <<>> THEN <<>> ELSE Tail(rs[1].p)) \o CatFirst(os, b, j + 1)
 RequestAccounts == (kind = "fr" /\ ~zip /\ cur = 0) =>
    \A b \in 1..nb : ms[b] > 0 => CatFirst(outs, b, 1) \o col[b] = Iota(k)
+\* repeating compute() / __call__() on the same object gives the same results
+Repeatable == NTerm = 2 => outs[Len(outs)] = outs[Len(outs) - 1]
 Terminal == cur = 0 /\ (Terminated \/ (kind = "fr" /\ (Len(outs) = 3 \/ k = MaxN)))
 Emitted == Terminal => PrintT(ToJson([kind |-> kind, nb |-> nb, ms |-> ms, zip |-> zip, hist |-> hist, outs |-> outs]))
 =============================================================================
